@@ -46,6 +46,8 @@ type Work struct {
 	ResBuf    int    `json:"res_buf,omitempty"`   // buffer of the pool's result channel (0 = 2)
 	AnonSend  bool   `json:"anon_send,omitempty"` // sends go through an anonymous call site shared by several goroutines
 	Nils      bool   `json:"nils,omitempty"`      // interface channels also carry nil items
+	Scale     int64  `json:"scale,omitempty"`     // numeric items are multiplied by this (negative and large values; 0 = 1)
+	CapExpr   int    `json:"cap_expr,omitempty"`  // how buffer sizes are spelled: 0 literal, 1 `1 + 1`-style sum, 2 float literal
 }
 
 type Prop struct{}
@@ -90,6 +92,10 @@ func (Prop) Gen(seed int64, tier string) *harness.Case {
 	}
 	w.AnonSend = r.Intn(3) == 0
 	w.Nils = w.Elem == "interface" && r.Intn(2) == 0
+	if (w.Elem == "int64" || w.Elem == "float64") && r.Intn(2) == 0 {
+		w.Scale = []int64{-1, 1000003, -4099, 70000000001}[r.Intn(4)]
+	}
+	w.CapExpr = r.Intn(3)
 	if tier == "real" {
 		// the real-thread leg wants contention: many items, pools of receivers, no sleeps
 		for i := range w.Items {
@@ -175,6 +181,18 @@ func itemExpr(elem string, nils bool) string {
 	return "id * 100 + i"
 }
 
+func capExpr(n, style int) string {
+	switch style {
+	case 1:
+		if n >= 1 {
+			return fmt.Sprintf("%d + 1", n-1)
+		}
+	case 2:
+		return fmt.Sprintf("%d.0", n)
+	}
+	return fmt.Sprint(n)
+}
+
 func fwdExpr(elem, v string) string {
 	switch elem {
 	case "string":
@@ -208,7 +226,7 @@ func Render(w *Work) string {
 	stages := len(w.Bufs)
 	for i, n := range w.Bufs {
 		if n > 0 {
-			fmt.Fprintf(&b, "ch%d = make(chan %s, %d)\n", i, w.Elem, n)
+			fmt.Fprintf(&b, "ch%d = make(chan %s, %s)\n", i, w.Elem, capExpr(n, w.CapExpr))
 		} else {
 			fmt.Fprintf(&b, "ch%d = make(chan %s)\n", i, w.Elem)
 		}
@@ -223,10 +241,14 @@ func Render(w *Work) string {
 	if w.Sleep {
 		sl = "sleep(1)\n"
 	}
-	send := "ch0 <- " + itemExpr(w.Elem, w.Nils)
+	item := itemExpr(w.Elem, w.Nils)
+	if w.Scale != 0 && (w.Elem == "int64" || w.Elem == "float64") {
+		item = fmt.Sprintf("(%s) * (%d)", item, w.Scale)
+	}
+	send := "ch0 <- " + item
 	if w.AnonSend {
 		// one anonymous-call site evaluated by every producer goroutine
-		send = "func(x) { ch0 <- x }(" + itemExpr(w.Elem, w.Nils) + ")"
+		send = "func(x) { ch0 <- x }(" + item + ")"
 	}
 	body := "for i = 1; i <= n; i++ {\n" + sl + send + "\n}\ndn <- id\n"
 	b.WriteString("func prod(id, n) {\nargs(id, n)\n" + body + "}\n")
@@ -262,7 +284,12 @@ func Render(w *Work) string {
 		case 6:
 			b.WriteString("go prod6(pid, 12, 13, 14, 15, ns[pid - 1])\n")
 		default:
-			b.WriteString("go prodw([pid, ns[pid - 1], 9]...)\n")
+			b.WriteString("xs = [pid, ns[pid - 1], 9]\ngo prodw(xs...)\n")
+			if w.MutateArg {
+				// rebinding the variable is invisible to the goroutine; writing INTO the spread slice
+				// would be unsynchronised sharing of one container, which is outside the guarantee
+				b.WriteString("xs = [77, 0, 9]\n")
+			}
 		}
 		if w.MutateArg {
 			b.WriteString("pid = 77\n")
@@ -314,6 +341,7 @@ func Render(w *Work) string {
 		b.WriteString("probe(\"recv-closed\", <-" + last + ")\n")
 		b.WriteString("z = 5\nz = <-" + last + "\nprobe(\"recv-stmt\", z)\n")
 		b.WriteString("y = 7\ny, ok2 = <-" + last + "\nprobe(\"ok-form\", [y, ok2])\n")
+		fmt.Fprintf(&b, "pf = make(chan int64, %s)\npf <- 1\npf <- 2\npf <- 3\nprobe(\"prefill\", len(pf))\n", capExpr(3, w.CapExpr))
 		b.WriteString("try {\n" + last + " <- 1\nprobe(\"send-closed\", \"no error\")\n} catch e {\nprobe(\"send-closed\", \"error\")\n}\n")
 		b.WriteString("try {\nclose(" + last + ")\nprobe(\"double-close\", \"no error\")\n} catch e {\nprobe(\"double-close\", \"error\")\n}\n")
 	}
@@ -349,9 +377,9 @@ func expected(w *Work) [][]interface{} {
 					v = str
 				}
 			case "float64":
-				v = float64(num + int64(1000*(stages-1)))
+				v = float64(num*scaleOf(w) + int64(1000*(stages-1)))
 			default:
-				v = num + int64(1000*(stages-1))
+				v = num*scaleOf(w) + int64(1000*(stages-1))
 			}
 			seq = append(seq, v)
 		}
@@ -360,12 +388,34 @@ func expected(w *Work) [][]interface{} {
 	return out
 }
 
+func scaleOf(w *Work) int64 {
+	if w.Scale == 0 || (w.Elem != "int64" && w.Elem != "float64") {
+		return 1
+	}
+	return w.Scale
+}
+
 func producerOf(w *Work, v interface{}) int {
+	unscale := func(x int64) int {
+		x -= int64(1000 * (len(w.Bufs) - 1))
+		sc := scaleOf(w)
+		if x%sc != 0 {
+			return 0
+		}
+		x /= sc
+		if x < 0 {
+			return 0
+		}
+		return int((x % 1000) / 100)
+	}
 	switch x := v.(type) {
 	case int64:
+		if w.Elem == "int64" {
+			return unscale(x)
+		}
 		return int((x % 1000) / 100)
 	case float64:
-		return int((int64(x) % 1000) / 100)
+		return unscale(int64(x))
 	case string:
 		var p, i int
 		if _, err := fmt.Sscanf(strings.TrimRight(x, "!"), "p%d_%d", &p, &i); err == nil {
@@ -594,6 +644,9 @@ func judge(wp *Work, got []interface{}, probes map[string]interface{}, mainVal i
 			}
 			if probes["double-close"] != "error" {
 				return fail("double-close", fmt.Sprintf("closing a closed channel: %v (expected an error caught by try)", probes["double-close"]))
+			}
+			if probes["prefill"] != int64(3) {
+				return fail("buffer-capacity", fmt.Sprintf("a channel made with capacity 3 held %v items after three sends (expected 3, without blocking)", probes["prefill"]))
 			}
 
 		}
